@@ -186,7 +186,22 @@ pub fn observe(ops: &[Op]) -> String {
                     let items: Vec<_> = table.iter(world).collect();
                     items.iter().map(|o| { let s = o.serial(); (slot_of(&addr, o.addr(), s), o.tag(), o.val()) }).collect::<Vec<_>>()
                 }));
-                match r { Ok(l) => list_str(&l), Err(p) => panic_kind(&p).into() }
+                match r {
+                    Ok(l) => {
+                        // the iterator protocol on the same table and world: nth(k) and skip(k) agree with the collected list
+                        let extra = catch_unwind(AssertUnwindSafe(|| {
+                            let n1 = table.iter(world).nth(1).map(|o| o.tag());
+                            let n2 = table.iter(world).nth(2).map(|o| o.tag());
+                            let s1: Vec<u64> = table.iter(world).skip(1).map(|o| o.tag()).collect();
+                            let st: Vec<u64> = table.iter(world).step_by(2).map(|o| o.tag()).collect();
+                            let f = |x: Option<u64>| x.map(|t| t.to_string()).unwrap_or("-".into());
+                            let l = |v: &[u64]| if v.is_empty() { "-".to_string() } else { v.iter().map(|t| t.to_string()).collect::<Vec<_>>().join(".") };
+                            format!("#n1={}#n2={}#s1={}#st={}", f(n1), f(n2), l(&s1), l(&st))
+                        }));
+                        format!("{}{}", list_str(&l), extra.unwrap_or_else(|_| "#panic".into()))
+                    }
+                    Err(p) => panic_kind(&p).into(),
+                }
             }
             Op::IterMut => {
                 let r = catch_unwind(AssertUnwindSafe(|| {
@@ -201,7 +216,19 @@ pub fn observe(ops: &[Op]) -> String {
                     }
                     res
                 }));
-                match r { Ok(l) => list_str(&l), Err(p) => panic_kind(&p).into() }
+                match r {
+                    Ok(l) => {
+                        let extra = catch_unwind(AssertUnwindSafe(|| {
+                            let n1 = table.iter_mut(world).nth(1).map(|o| o.tag());
+                            let s1: Vec<u64> = table.iter_mut(world).skip(1).map(|o| o.tag()).collect();
+                            let f = |x: Option<u64>| x.map(|t| t.to_string()).unwrap_or("-".into());
+                            let l = |v: &[u64]| if v.is_empty() { "-".to_string() } else { v.iter().map(|t| t.to_string()).collect::<Vec<_>>().join(".") };
+                            format!("#n1={}#s1={}", f(n1), l(&s1))
+                        }));
+                        format!("{}{}", list_str(&l), extra.unwrap_or_else(|_| "#panic".into()))
+                    }
+                    Err(p) => panic_kind(&p).into(),
+                }
             }
             Op::Hold(k, excl) => {
                 let r: Result<Option<Box<dyn HoldObj>>, _> = catch_unwind(AssertUnwindSafe(|| with_m!(*k, T => {
